@@ -19,8 +19,8 @@ ASSUMPTIONS = [
     'awaitable completions and resume calls are delivered between two event-loop callbacks',
 ]
 BUDGET = {
-    'quick': {'enum': ['p3', 'w2', 'wfail', 'pair3', 'tasks'], 'hyp': 2000, 'shards': 8},
-    'thorough': {'enum': ['p3', 'p4', 'w2', 'w3', 'wfail', 'pair3', 'pair4', 'tasks'], 'hyp': 100000, 'shards': 16},
+    'quick': {'enum': ['p3', 'w2', 'wfail', 'pair3', 'tasks', 'killwithdrawn'], 'hyp': 2000, 'shards': 8},
+    'thorough': {'enum': ['p3', 'p4', 'w2', 'w3', 'wfail', 'pair3', 'pair4', 'tasks', 'killwithdrawn'], 'hyp': 100000, 'shards': 16},
 }
 ALPHABET = [['resume', 'v1'], ['resume', None], ['pause', 'pm'], ['play']]
 
@@ -34,6 +34,19 @@ def enumerate_cases(tier, scope):
             for kk in range(1, k + 1):
                 for sched in gen.schedules(ALPHABET, kk, gap):
                     yield {'program': cat[name], 'schedule': [['tick', 1]] + sched, 'tag': f'{scope}:{name}'}
+    elif scope == 'killwithdrawn':
+        # a kill that its requester withdrew (it cancelled the future kill() returned) leaves a process that still has to
+        # be woken up like any other: wake-ups before, at and after the withdrawal are not lost
+        alpha = [['resume', 'v1'], ['resume', None], ['kill', 'kt'], ['withdraw'], ['pause', 'pm'], ['play']]
+        for name in ('wait1', 'waitwait'):
+            for kk in (3, 4):
+                for sched in gen.schedules(alpha, kk, 1 if kk == 3 else 0):
+                    kinds = [e[0] for e in sched]
+                    if 'withdraw' not in kinds or 'kill' not in kinds[: kinds.index('withdraw')] or 'resume' not in kinds:
+                        continue
+                    if kinds.count('kill') > 1 or (kk == 4 and kinds.count('withdraw') > 1):
+                        continue
+                    yield {'program': cat[name], 'schedule': [['tick', 1]] + sched, 'tag': f'killwithdrawn:{name}'}
     elif scope == 'tasks':
         # the task stepping the waiting process is cancelled by its caller around the wake-up, and the process is stepped
         # again later: the wake-up must survive that as well (sync steps only: a cancelled wait is simply waited again)
@@ -206,6 +219,10 @@ def execute(case):
         viol.append({'clause': clause, 'detail': detail})
 
     a = common_pp.run_with_requests(case)
+    kills = [r for r in a['calls'] if r['what'] in ('kill', 'cancel')]
+    if kills and not all(r.get('withdrawn') for r in kills):
+        # a kill that was carried out (or never withdrawn) ends the run: C04's subject, nothing to say about wake-ups
+        return {'violations': [], 'nontrivial': False, 'classes': ['kill-effective'], 'history': a['history']}
     b = common_pp.run_twin(case, a['delivered'])
     va = a['views']
     n_waits = sum(1 for t in a['transitions'] if t[1] == 'waiting')
